@@ -77,6 +77,24 @@ func (nd *KVNode) VerifSnapshotMeta() []byte {
 	return d
 }
 
+// VerifSnapHandle: a snapshot that was begun (KVNode.GetSnapshot has cloned the synced positions) and is
+// serialised later by KVSnapInfo.GetData, as raftNode.beginSnapshot does in its own goroutine.
+type VerifSnapHandle struct{ si KVSnapInfo }
+
+func (nd *KVNode) VerifBeginSnapshotMeta() *VerifSnapHandle {
+	h := &VerifSnapHandle{}
+	h.si.RemoteSyncedStates = nd.remoteSyncedStates.Clone()
+	return h
+}
+
+func (h *VerifSnapHandle) Data() []byte {
+	d, err := h.si.GetData()
+	if err != nil {
+		panic(err)
+	}
+	return d
+}
+
 // VerifRestoreSnapshotMeta is the tail of KVNode.RestoreFromSnapshot.
 func (nd *KVNode) VerifRestoreSnapshotMeta(data []byte) error {
 	var si KVSnapInfo
